@@ -92,22 +92,26 @@ impl<T> MethodMatcher<T> {
         removed
     }
 
-    pub fn batch_remove(&mut self, ids: &HashSet<String>) -> bool {
-        self.any_method.batch_remove(ids);
+    /// Remove routes by ids, returns ids of routes really removed
+    pub fn batch_remove(&mut self, ids: &HashSet<String>) -> HashSet<String> {
+        let mut removed = self.any_method.batch_remove(ids);
 
         self.methods.retain(|_, matcher| {
-            matcher.batch_remove(ids);
+            removed.extend(matcher.batch_remove(ids));
 
             !matcher.is_empty()
         });
 
         self.exclude_methods.retain(|_, matcher| {
-            matcher.batch_remove(ids);
+            removed.extend(matcher.batch_remove(ids));
 
             !matcher.is_empty()
         });
 
-        self.any_method.is_empty() && self.methods.is_empty() && self.exclude_methods.is_empty()
+        // A route with several methods is stored once per method but counted once
+        self.count -= removed.len();
+
+        removed
     }
 
     pub fn match_request(&self, request: &Request) -> Vec<Arc<Route<T>>> {
